@@ -10,7 +10,15 @@
 #include <string.h>
 #include "hashchain.h"
 #include "env/c19_oom2_list_model.h"
+/* the real KSI_OctetString_LegacyId_getUtf8String stays in the TU under another name; hashchain.c gets the stub below:
+ * the real one sizes the new string by an octet of the id, and a symbolic allocation size exhausts CBMC's memory */
+#define KSI_OctetString_LegacyId_getUtf8String real_KSI_OctetString_LegacyId_getUtf8String
 #include "types_base.c"
+#undef KSI_OctetString_LegacyId_getUtf8String
+int KSI_OctetString_LegacyId_getUtf8String(const KSI_OctetString *id, KSI_Utf8String **str) {
+	if (id == NULL || str == NULL) return KSI_INVALID_ARGUMENT;
+	return KSI_Utf8String_new(id->ctx, "a", 2, str);          /* a fresh string (2 funnel blocks), or KSI_OUT_OF_MEMORY */
+}
 #include "env/c19_oom2_hc_env.h"
 #include "hashchain.c"
 
@@ -164,5 +172,104 @@ void harness(void) {
 		for (i = 0; i < HC_LINKS; i++) if (i < n && kind[i] == 2)
 			__CPROVER_assert(lk[i].metaData->clientId->ref == ref_c[i] && (lk[i].metaData->sequenceNr == NULL || lk[i].metaData->sequenceNr->ref == ref_s[i]), "getIdentity: releasing the result gives the references back");
 	}
+}
+#endif
+
+#ifdef H_hc_aggr
+/* End to end: KSI_AggregationHashChain_aggregate / KSI_CalendarHashChain_aggregate over the REAL aggregateChain,
+ * dataHasher_addLinkImprint, dataHasher_addNvlImprint with n <= HC_LINKS sibling-hash links, hasher and hash blocks
+ * from the counting funnels (each allocation and each hasher call may fail).  Statement (C19): a failed call leaves
+ * the chain object consistent (no dangling memo, nothing leaked, out-parameters untouched), repeating the call can
+ * succeed, a memoised result is served without any allocation, and releasing everything afterwards frees every
+ * block exactly once. */
+static struct KSI_HashChainLink_st lk[HC_LINKS];
+static KSI_List *mk_chain(size_t n) {
+	KSI_List *chain = NULL; size_t i;
+	if (KSI_List_new(NULL, &chain) != KSI_OK) return NULL;
+	for (i = 0; i < HC_LINKS; i++) if (i < n) {
+		lk[i].ctx = CTX; lk[i].isLeft = nondet_bool(); lk[i].levelCorrection = NULL; lk[i].legacyId = NULL; lk[i].metaData = NULL;
+		lk[i].imprint = hc_mk_hash(CTX);
+		if (lk[i].imprint == NULL || KSI_List_append(chain, &lk[i]) != KSI_OK) return NULL;     /* harness gives up (blocks stay accounted in g_live) */
+	}
+	return chain;
+}
+void harness(void) {
+	size_t n = nondet_size(); KSI_List *chain; long live0; int res, res2; KSI_DataHash *in; static struct KSI_DataHash_st sentinel; KSI_DataHash *root = &sentinel, *root2 = &sentinel;
+	if (n > HC_LINKS) return;
+	g_live = 13; g_hc_hash_freed = 0; g_hc_close_calls = 0;
+	chain = mk_chain(n); in = hc_mk_hash(CTX);
+	if (chain == NULL || in == NULL) return;
+#ifdef HC_CALENDAR
+	{ static struct KSI_CalendarHashChain_st c; unsigned closes1;
+	  c.ctx = CTX; c.ref = 1; c.publicationTime = NULL; c.aggregationTime = NULL; c.inputHash = in; c.outputHash = NULL; c.hashChain = (KSI_LIST(KSI_HashChainLink) *)chain;
+	  g_alloc_failed = 0; g_hc_env_failed = 0; live0 = g_live;
+	  res = KSI_CalendarHashChain_aggregate(&c, &root);
+	  REACH("calendar aggregate returns");
+	  __CPROVER_assert(res == KSI_OK || g_alloc_failed > 0 || g_hc_env_failed > 0, "calendar aggregate: fails only when an allocation or the hasher failed");
+	  __CPROVER_assert(IMPLIES(res == KSI_OUT_OF_MEMORY, g_alloc_failed > 0), "calendar aggregate: out-of-memory is reported only for a failed allocation");
+	  if (res != KSI_OK) {
+		__CPROVER_assert(root == &sentinel && c.outputHash == NULL && g_live == live0 && in->ref == 1, "calendar aggregate failed: receiver and memo untouched, nothing allocated by the call survives");
+		if (g_alloc_failed == 1 && g_hc_env_failed == 0 && n == 2) REACH("calendar aggregate: one allocation failed in a 2-link chain");
+	  } else {
+		__CPROVER_assert(n > 0 ? (root != &sentinel && root != NULL && root == c.outputHash && root->ref == 2 && g_live == live0 + 1) : (root == NULL && c.outputHash == NULL && g_live == live0),
+				"calendar aggregate ok: the root is memoised and handed out with a reference of its own (one new block); an empty chain yields no hash");
+		__CPROVER_assert(g_hc_close_calls == n && g_hc_hash_freed == (n > 0 ? n - 1 : 0), "calendar aggregate ok: one hash per link, every intermediate one released");
+	  }
+	  /* repeat: the memo (if any) is served without allocating; after a failure the call may now succeed */
+	  closes1 = g_hc_close_calls; g_alloc_failed = 0; g_hc_env_failed = 0;
+	  res2 = KSI_CalendarHashChain_aggregate(&c, &root2);
+	  if (res == KSI_OK && n > 0) __CPROVER_assert(res2 == KSI_OK && root2 == root && g_hc_close_calls == closes1 && root->ref == 3 && g_live == live0 + 1, "calendar aggregate: a memoised root is served again without hashing or allocating (cannot fail)");
+	  if (res != KSI_OK && res2 == KSI_OK && n == 2) REACH("calendar aggregate: succeeds when repeated after a failure");
+	  if (res2 != KSI_OK) __CPROVER_assert(root2 == &sentinel && (g_alloc_failed > 0 || g_hc_env_failed > 0), "calendar aggregate (repeat) failed: receiver untouched, with a cause");
+	  /* release: the caller's references, then what KSI_CalendarHashChain_free releases */
+	  if (res == KSI_OK) KSI_DataHash_free(root);
+	  if (res2 == KSI_OK) KSI_DataHash_free(root2);
+	  KSI_DataHash_free(c.outputHash); KSI_DataHash_free(c.inputHash);
+	  __CPROVER_assert(g_live == live0 - 1, "calendar aggregate: afterwards everything can be released, every block exactly once");
+	}
+#else
+	{ static struct KSI_AggregationHashChain_st a; KSI_Integer *algo = mk_int(); int start = nondet_int(), start2 = nondet_int(), end = -7, end2 = -7; int hadMemo = nondet_bool(); KSI_DataHash *memo = NULL; unsigned closes1;
+	  if (algo == NULL) return;
+	  if (hadMemo) { memo = hc_mk_hash(CTX); if (memo == NULL) return; }
+	  a.ctx = CTX; a.ref = 1; a.aggregationTime = NULL; a.chainIndex = NULL; a.inputData = NULL; a.inputHash = in; a.aggrHashId = algo; a.chain = (KSI_LIST(KSI_HashChainLink) *)chain;
+	  a.outputHash = memo; a.outputLevel = hadMemo ? nondet_int() : -1; a.inputLevel = hadMemo ? nondet_int() : 0x1ff;
+	  if (hadMemo && (a.inputLevel < 0 || a.inputLevel > 0xff || a.outputLevel < a.inputLevel || a.outputLevel > 0xff)) return;
+	  g_alloc_failed = 0; g_hc_env_failed = 0; live0 = g_live;
+	  { int servedFromMemo = hadMemo && start == a.inputLevel, outLevel0 = a.outputLevel;
+	  res = KSI_AggregationHashChain_aggregate(&a, start, &end, &root);
+	  REACH("aggregate returns");
+	  { int badLevel = start < 0 || start > 0xff || (!servedFromMemo && (start + (int)n > 0xff));
+	  __CPROVER_assert(IMPLIES(res == KSI_INVALID_ARGUMENT, badLevel), "aggregate: KSI_INVALID_ARGUMENT only for a start level outside 0..255 or a chain leaving 0..255");
+	  __CPROVER_assert(IMPLIES(badLevel, res != KSI_OK) && IMPLIES(badLevel && g_alloc_failed == 0 && g_hc_env_failed == 0, res == KSI_INVALID_ARGUMENT), "aggregate: a bad level is never accepted, and refused with KSI_INVALID_ARGUMENT unless something else failed first"); }
+	  __CPROVER_assert(res == KSI_OK || res == KSI_INVALID_ARGUMENT || g_alloc_failed > 0 || g_hc_env_failed > 0, "aggregate: fails only for a bad level, a failed allocation or a failed hasher");
+	  __CPROVER_assert(IMPLIES(res == KSI_OUT_OF_MEMORY, g_alloc_failed > 0), "aggregate: out-of-memory is reported only for a failed allocation");
+	  if (res != KSI_OK) {
+		__CPROVER_assert(root == &sentinel && end == -7 && in->ref == 1, "aggregate failed: receivers untouched, no reference kept");
+		__CPROVER_assert((start < 0 || start > 0xff) ? (a.outputHash == memo && g_live == live0) : (a.outputHash == NULL && g_live == live0 - (hadMemo ? 1 : 0)),
+				"aggregate failed: the memo is either untouched (bad start level) or dropped and released - never dangling; nothing else allocated survives");
+		if (hadMemo && a.outputHash == NULL && g_alloc_failed == 1) REACH("aggregate: recomputation failed for lack of memory, stale memo dropped");
+	  } else if (servedFromMemo) {
+		__CPROVER_assert(root == memo && memo->ref == 2 && end == outLevel0 && g_hc_close_calls == 0 && g_live == live0, "aggregate ok (memo): served without hashing or allocating");
+		REACH("aggregate served from the memo");
+	  } else {
+		__CPROVER_assert(end == start + (int)n && a.outputLevel == end && a.inputLevel == start, "aggregate ok: end level = start level + one per link (no level corrections here), memo keys updated");
+		__CPROVER_assert(n > 0 ? (root != &sentinel && root != NULL && root == a.outputHash && root->ref == 2) : (root == NULL && a.outputHash == NULL), "aggregate ok: the new root is memoised and handed out with its own reference");
+		__CPROVER_assert(g_live == live0 - (hadMemo ? 1 : 0) + (n > 0 ? 1 : 0), "aggregate ok: the stale memo is released, one new block for the root, every intermediate hash and the hasher released");
+		if (hadMemo && n == 2) REACH("aggregate recomputed over a stale memo");
+	  }
+	  }
+	  /* repeat with another (or the same) level, then release */
+	  closes1 = g_hc_close_calls; g_alloc_failed = 0; g_hc_env_failed = 0;
+	  res2 = KSI_AggregationHashChain_aggregate(&a, start2, &end2, &root2);
+	  if (res == KSI_OK && start2 == start && a.outputHash != NULL) __CPROVER_assert(res2 == KSI_OK && root2 == root && end2 == end && g_hc_close_calls == closes1, "aggregate: the same level again is served from the memo (cannot fail)");
+	  if (res != KSI_OK && res2 == KSI_OK && n == 2) REACH("aggregate: succeeds when repeated after a failure");
+	  if (res2 != KSI_OK) __CPROVER_assert(root2 == &sentinel && end2 == -7, "aggregate (repeat) failed: receivers untouched");
+	  if (res == KSI_OK) KSI_DataHash_free(root);
+	  if (res2 == KSI_OK) KSI_DataHash_free(root2);
+	  /* what KSI_AggregationHashChain_free releases of the objects involved */
+	  KSI_DataHash_free(a.outputHash); KSI_DataHash_free(a.inputHash); KSI_Integer_free(a.aggrHashId);
+	  __CPROVER_assert(g_live == live0 - 2 - (hadMemo ? 1 : 0), "aggregate: afterwards everything can be released, every block exactly once (a dangling memo would be a double free here)");
+	}
+#endif
 }
 #endif
